@@ -28,6 +28,8 @@ def lane_task(t):
         r = A.logsoftmax(x, axis=ax)
     elif fn == "softmax_crossentropy":
         r = LS.softmax_crossentropy(x, np.array(t["labels"]))
+    elif fn == "cumprod":
+        r = mg.cumprod(x, axis=ax)
     elif fn == "multiclass_hinge":
         r = LS.multiclass_hinge(x, np.array(t["labels"]), hinge=t["hinge"])
     elif fn == "focal_loss":
